@@ -1,8 +1,16 @@
 #!/usr/bin/env python3-vt
 import json, jsonschema, glob, sys
-jsonschema.validate(json.load(open('/verif/MANIFEST.json')), json.load(open('/root/.vp/MANIFEST.schema.json')))
+m = json.load(open('/verif/MANIFEST.json'))
+jsonschema.validate(m, json.load(open('/root/.vp/MANIFEST.schema.json')))
 es = json.load(open('/root/.vp/EVIDENCE.schema.json'))
+cat = {c['property_id']: c['level_claimed'].get('category', 'proof') for c in m['checks']}
+bad = 0
 for f in sorted(glob.glob('/verif/evidence/*.json')):
-    jsonschema.validate(json.load(open(f)), es)
-    print('ok', f)
+    e = json.load(open(f))
+    jsonschema.validate(e, es)
+    if cat.get(e['property_id']) != e['level']:
+        print('LEVEL MISMATCH', f, e['level'], 'manifest says', cat.get(e['property_id'])); bad = 1
+    else:
+        print('ok', f)
 print('manifest valid')
+sys.exit(bad)
